@@ -169,6 +169,14 @@ CHECKS["C16"] = dict(
     design_ref="§2 C16",
 )
 
+CHECKS["C14"] = dict(
+    engine="bfs",
+    technique="explicit-state BFS over worker-death sequences driving the real parent-side start / heartbeat-report / loop-iteration code of the three process-based runners on the real SQLite stack, with the operating-system process objects (Process, Manager, cpu_count, os.kill, signal) replaced by controllable stand-ins; every state judged against the configured pool numbers",
+    text="50 configurations (PersistentProcessRunner num_processes 1-3 / cpu_count / min_parallel_slots, MultiThreadRunner (min,max) in 6 pairs x enforce on/off x queue 0/2/3/4, ProcessRunner cpu_count 1-3 x queue 0/2/5). Per round every live tracked worker gets a fate (survives / dies before the heartbeat report / dies between report and iteration / ProcessRunner: finishes and exits); quick: every subset of the pool x one kind of death per round, depth 3; thorough: every assignment, depth 4. After every round and after one more quiet round: dead workers forgotten, pool back at the configured number, heartbeats only for live tracked workers, every started worker's claimed invocation protected while it lives and recoverable after it died (probe with the clock past the dead-runner limit).",
+    note="The child entry points never run: after every start the explorer performs the first steps of the real child (register context, claim one invocation, set RUNNING) through the real components with the ids the parent passed to Process(...). No OS process is started. One defect found and repaired in /repo (MultiThreadRunner never forgot or replaced dead workers).",
+    design_ref="§2 C14",
+)
+
 NOT_YET = "check not built yet in this session (planned, see DESIGN.md §2)"
 
 
